@@ -123,7 +123,8 @@ pub fn record_hist_typed<H: HistT>(out: &mut impl Write, rng: &mut Xoshiro256Plu
             writeln!(out, "{}", json!({"op": if is_merge { "merge" } else { "addassign" }, "dst": s + 1, "src": 2 - s, "panic": r.is_err(),
                 "bins": w[s].as_ref().unwrap().bins(), "srcbins": w[1 - s].as_ref().unwrap().bins(), "views_ok": vo})).unwrap();
         } else if choice < 94 {
-            let k = [0u64, 1, 2, 3][rng.random_range(0..4)];
+            // 0, 1, powers of two, odd and even composite multipliers (a shift is right only for the powers of two)
+            let k = [0u64, 1, 2, 3, 6, 10, 12, 7, 4][rng.random_range(0..9)];
             let h = w[s].as_mut().unwrap();
             if h.bins().iter().sum::<u64>() > 100_000 {
                 continue;
